@@ -7,6 +7,8 @@ import (
 	"bytes"
 	"crypto/ecdsa"
 	"fmt"
+	"os"
+	"path/filepath"
 	"runtime"
 	"sort"
 	"strconv"
@@ -94,10 +96,11 @@ type Config struct {
 	ByzMenu      bool
 	ByzMaxRound  uint32
 	ValScript    map[uint64][]int64 // height -> new power vector reported by the application after that height (0 = removed)
-	Restarts     bool               // offer Restart(i) deviations (C04)
-	ByzVariants  []string           // proposal variants offered (nil = A, B and every invalid variant)
-	ByzProposer  bool               // make the (single) Byzantine validator the round-1 proposer of height 1
-	Driver       string             // scripted prefix executed before the exploration starts ("" = genesis)
+	Restarts     bool               // offer Restart(i) deviations (C04); nodes then run on a real WAL
+	NoByzMenu    bool
+	ByzVariants  []string // proposal variants offered (nil = A, B and every invalid variant)
+	ByzProposer  bool     // make the (single) Byzantine validator the round-1 proposer of height 1
+	Driver       string   // scripted prefix executed before the exploration starts ("" = genesis)
 }
 
 // Msg is one network message with its provenance.
@@ -139,19 +142,21 @@ type BlockInfo struct {
 
 // World is one execution.
 type World struct {
-	Cfg     Config
-	X       *explore.Ctx
-	cur     int // node currently stepping (for the logical clock)
-	saved   []int
-	Keys    []*ecdsa.PrivateKey
-	Addrs   []common.Address
-	Nodes   []*consensus.VerifNode // nil for Byzantine validators
-	DBs     []kaidb.Database
-	Gen     *consensus.VerifGenesis
-	Correct []int
-	IsByz   map[int]bool
-	Step    int
-	Log     []Delivery
+	Cfg      Config
+	X        *explore.Ctx
+	walDir   string
+	Restarts int
+	cur      int // node currently stepping (for the logical clock)
+	saved    []int
+	Keys     []*ecdsa.PrivateKey
+	Addrs    []common.Address
+	Nodes    []*consensus.VerifNode // nil for Byzantine validators
+	DBs      []kaidb.Database
+	Gen      *consensus.VerifGenesis
+	Correct  []int
+	IsByz    map[int]bool
+	Step     int
+	Log      []Delivery
 	// per receiver: message id -> receiver version at which it was last delivered
 	seen       []map[string]string
 	ever       []map[string]uint64
@@ -241,6 +246,17 @@ func NewWorld(cfg Config, x *explore.Ctx) *World {
 	for _, b := range cfg.Byz {
 		w.IsByz[b] = true
 	}
+	if cfg.Restarts {
+		base := "/dev/shm"
+		if _, err := os.Stat(base); err != nil {
+			base = os.TempDir()
+		}
+		d, err := os.MkdirTemp(base, "verif-netsim-")
+		if err != nil {
+			panic(err)
+		}
+		w.walDir = d
+	}
 	w.Nodes = make([]*consensus.VerifNode, n)
 	w.DBs = make([]kaidb.Database, n)
 	w.seen = make([]map[string]string, n)
@@ -255,9 +271,44 @@ func NewWorld(cfg Config, x *explore.Ctx) *World {
 		db := memorydb.New()
 		consensus.VerifWriteGenesisBlock(db, gen)
 		w.DBs[i] = db
-		w.Nodes[i] = w.bootNode(i, nil)
+		w.Nodes[i] = w.bootNode(i, w.openWAL(i))
 	}
 	return w
+}
+
+func (w *World) openWAL(i int) consensus.WAL {
+	if w.walDir == "" {
+		return nil
+	}
+	wal, err := consensus.VerifOpenWAL(filepath.Join(w.walDir, fmt.Sprint("n", i), "cs.wal", "wal"))
+	if err != nil {
+		panic(fmt.Sprintf("netsim: cannot open WAL of node %d: %v", i, err))
+	}
+	return wal
+}
+
+// Restart drops node i's process state and boots it again on its database and WAL, the way a node
+// restarts: construction from the stores, WAL catch-up (errors other than corruption are ignored, as
+// OnStart does), then round 0 is scheduled.
+func (w *World) Restart(i int) {
+	w.Step++
+	d := Delivery{Step: w.Step, Node: i, Ev: "restart"}
+	w.Log = append(w.Log, d)
+	w.tracef("n%d RESTART", i)
+	old := w.Nodes[i]
+	old.StopWAL()
+	old.Close()
+	w.cur = i
+	nd := w.bootNode(i, w.openWAL(i))
+	w.Nodes[i] = nd
+	w.savedCnt()[i] = 0
+	if err := nd.CatchupReplay(); err != nil {
+		w.tracef("n%d catch-up: %v", i, err)
+	}
+	nd.Begin()
+	w.cur = -1
+	w.Restarts++
+	w.afterStep(i)
 }
 
 func (w *World) valScriptFor() map[uint64][]*types.Validator {
@@ -304,8 +355,14 @@ func (w *World) bootNode(i int, wal consensus.WAL) *consensus.VerifNode {
 func (w *World) Close() {
 	for _, n := range w.Nodes {
 		if n != nil {
+			if w.walDir != "" {
+				n.StopWAL()
+			}
 			n.Close()
 		}
+	}
+	if w.walDir != "" {
+		os.RemoveAll(w.walDir)
 	}
 	id := goid()
 	clockMu.Lock()
@@ -516,7 +573,7 @@ func (w *World) deliverables(r int) []*Msg {
 			}
 			w.catchupParts(r, s, add)
 		case ss.Height > rs.Height+1:
-			if c := sn.App.LoadBlockCommit(rs.Height); c != nil {
+			if c := sn.LoadBlockCommit(rs.Height); c != nil {
 				for idx := range c.Signatures {
 					if v := c.GetVote(uint32(idx)); v != nil && lacksVote(rs, v) {
 						add(w.wrap(consensus.VerifVoteMsg(v), -1))
@@ -544,14 +601,14 @@ func (w *World) catchupParts(r, s int, add func(*Msg)) {
 	if rs.ProposalBlockParts == nil || rs.ProposalBlockParts.IsComplete() {
 		return
 	}
-	meta := w.Nodes[s].App.LoadBlockMeta(rs.Height)
+	meta := w.Nodes[s].LoadBlockMeta(rs.Height)
 	if meta == nil || !rs.ProposalBlockParts.HasHeader(meta.BlockID.PartsHeader) {
 		return
 	}
 	ba := rs.ProposalBlockParts.BitArray()
 	for idx := 0; idx < int(meta.BlockID.PartsHeader.Total); idx++ {
 		if !ba.GetIndex(idx) {
-			if p := w.Nodes[s].App.LoadBlockPart(rs.Height, idx); p != nil {
+			if p := w.Nodes[s].LoadBlockPart(rs.Height, idx); p != nil {
 				add(w.wrap(consensus.VerifPartMsg(rs.Height, rs.Round, p), -1))
 			}
 		}
@@ -570,8 +627,8 @@ func (w *World) tracef(f string, a ...interface{}) {
 func (w *World) afterStep(i int) {
 	n := w.Nodes[i]
 	// commits observed through the application
-	for len(n.App.Saved) > w.savedSeen(i) {
-		rec := n.App.Saved[w.savedSeen(i)]
+	for len(n.SavedRecords()) > w.savedSeen(i) {
+		rec := n.SavedRecords()[w.savedSeen(i)]
 		w.bumpSaved(i)
 		w.noteBlock(rec.Block, nil, fmt.Sprintf("committed-by:%d", i), "")
 		for _, m := range w.Monitors {
